@@ -76,7 +76,7 @@ def instances(tier, seed):
     Hsym = [h for h in H if fam.horizon_symbolic(h)]
     grids = [fam.G_UNI, fam.G_GEO_LOC, fam.G_UNI_LT, 'fun']
     n = 0
-    reps = 1 if tier == 'quick' else 3
+    reps = 1 if tier == 'quick' else 6
     for rep in range(reps):
         for method, intg, dae in (('MS', 'rk', False), ('SS', 'rk', False), ('DC', None, False), ('DC', None, True), ('MS', 'expl_euler', False), ('SS', 'expl_euler', False)):
             N = [2, 3][n % 2] if tier == 'quick' else rng.choice([1, 2, 3])
